@@ -19,7 +19,7 @@ const int64_t LIM = 2147483647LL; // what an int32 offset or length can say
 struct Limits : Profile {
     const char *name() const override { return "limits"; }
     const char *property() const override { return "C20"; }
-    int         runs(bool thorough) const override { return thorough ? 60000 : 3000; }
+    int         runs(bool thorough) const override { return thorough ? 40000 : 3000; }
     std::string rule() const override
     {
         return "each case = one generated plan of 8..30 probes in random order and amounts: sparse reserved elements and linked-block "
